@@ -5,6 +5,9 @@ import (
 	"math"
 	"strings"
 
+	"github.com/prometheus/prometheus/model/labels"
+	"github.com/prometheus/prometheus/promql/parser"
+
 	"verif/harness/check"
 	"verif/harness/core"
 	"verif/harness/gen"
@@ -339,6 +342,19 @@ func init() {
 							emit(&core.Case{Q: fmt.Sprintf("quantile %s (%s, a)", g, qp), Data: data, W: w, O: o, Note: ds})
 						}
 					}
+					// k-aggregations with a per-step parameter that crosses 1 (and 0) inside a
+					// batch, nested under every operator that pairs step vectors by position
+					for _, kp := range []string{`scalar(b{l="0"}) - 6`, `time() / 30 - 3`, `2 - time() / 100`, `scalar(b{l="0"}) - 5.5`} {
+						for _, kop := range []string{"topk", "bottomk"} {
+							for _, g := range []string{"", "by (l)"} {
+								inner := fmt.Sprintf("%s %s (%s, a)", kop, g, kp)
+								for _, outer := range []string{"%s + a", "a + %s", "%s > bool a", "quantile(scalar(b{l=\"0\"}) / 10, %s)", "topk(2, %s)", "bottomk(scalar(b{l=\"0\"}) - 4, %s)",
+									"clamp_min(%s, scalar(b{l=\"0\"}))", "sum by (l) (%s)", "count(%s)", "-%s", "%s + on (l) group_left b", "scalar(%s)", "%s * time()"} {
+									emit(&core.Case{Q: fmt.Sprintf(outer, inner), Data: data, W: w, O: o, Note: ds + " nested per-step k"})
+								}
+							}
+						}
+					}
 				}
 			}
 		})
@@ -380,6 +396,58 @@ func labelConfigs(metric string, maxN int) [][]string {
 	}
 	rec(0, nil)
 	return out
+}
+
+// oneSideDupMatched reports whether, at some step, two series of the "one" side of the
+// match (the right side, or the left side for group_right) share a match group in which
+// the other side also has a series present at that step. Samples sit exactly on the
+// steps and the lookback is shorter than the step.
+func oneSideDupMatched(q string, data []core.SeriesSpec) bool {
+	e, err := parser.ParseExpr(q)
+	if err != nil {
+		return false
+	}
+	be, ok := e.(*parser.BinaryExpr)
+	if !ok || be.VectorMatching == nil {
+		return false
+	}
+	vm := be.VectorMatching
+	sig := func(l labels.Labels) string {
+		if vm.On {
+			return labels.NewBuilder(l).Keep(vm.MatchingLabels...).Labels(nil).String()
+		}
+		return labels.NewBuilder(l).Del(vm.MatchingLabels...).Del(labels.MetricName).Labels(nil).String()
+	}
+	type key struct {
+		t   int64
+		sig string
+	}
+	one, other := map[key]int{}, map[key]int{}
+	for _, d := range data {
+		l, err := core.ParseLabels(d.L)
+		if err != nil {
+			continue
+		}
+		isLeft := l.Get(labels.MetricName) == "a"
+		isOne := !isLeft
+		if vm.Card == parser.CardOneToMany {
+			isOne = isLeft
+		}
+		for _, p := range d.S {
+			k := key{p.T, sig(l)}
+			if isOne {
+				one[k]++
+			} else {
+				other[k]++
+			}
+		}
+	}
+	for k, n := range one {
+		if n >= 2 && other[k] >= 1 {
+			return true
+		}
+	}
+	return false
 }
 
 func init() {
@@ -437,13 +505,19 @@ func init() {
 						for _, op := range ops {
 							for _, m := range gen.Matchings {
 								q := gen.Canon(fmt.Sprintf("a %s %s b", op, m))
+								note := fmt.Sprintf("cfg %d/%d pat %v", li, ri, pat)
+								if q != "" && oneSideDupMatched(q, data) {
+									// the engine does detect duplicates of the one side when the
+									// group is matched at that step: F03 must not mask these
+									note += " feat:dup:one-side-matched"
+								}
 								if q != "" {
-									emit(&core.Case{Q: q, Data: data, W: w, O: o, Note: fmt.Sprintf("cfg %d/%d pat %v", li, ri, pat)})
+									emit(&core.Case{Q: q, Data: data, W: w, O: o, Note: note})
 								}
 								if gen.CmpOps[op] {
 									q = gen.Canon(fmt.Sprintf("a %s bool %s b", op, m))
 									if q != "" {
-										emit(&core.Case{Q: q, Data: data, W: w, O: o, Note: fmt.Sprintf("cfg %d/%d pat %v", li, ri, pat)})
+										emit(&core.Case{Q: q, Data: data, W: w, O: o, Note: note})
 									}
 								}
 							}
